@@ -196,38 +196,54 @@ class Program(object):
         # type: () -> str
         """ Returns a string with commands formatted in the MPilot command file syntax. """
 
-        def serialize_value(value, argument, command):
-            # type: (Any, Argument, Command) -> str
+        def quote(value):
+            # type: (str) -> str
+            """ Quotes a string so that the parser reads back exactly the same text """
 
-            param = command.inputs[argument.name]
+            for char, escaped in (("\\", "\\\\"), ('"', '\\"'), ("\n", "\\n"), ("\r", "\\r"), ("\t", "\\t")):
+                value = value.replace(char, escaped)
+            return '"{}"'.format(value)
 
-            if isinstance(param, ResultParameter) or (
-                isinstance(param, ListParameter)
-                and isinstance(param.value_type, ResultParameter)
-            ):
+        def serialize_value(value, param):
+            # type: (Any, Any) -> str
+
+            if isinstance(value, Argument):
+                value = value.value
+            if isinstance(value, (list, tuple)):
+                item_param = param.value_type if isinstance(param, ListParameter) else None
+                return "[{}]".format(", ".join(serialize_value(x, item_param) for x in value))
+            if isinstance(value, Command):
+                return value.result_name
+            if isinstance(param, ResultParameter) and isinstance(value, six.string_types):
                 return str(value)
+            if isinstance(value, bool):
+                return str(value)
+            if isinstance(value, float):
+                text = repr(float(value))
+                if text in ("inf", "-inf", "nan"):
+                    return quote(text)
+                mantissa, e, exponent = text.partition("e")
+                if "." not in mantissa:
+                    mantissa += ".0"  # the parser only reads exponent notation on decimals
+                return mantissa + e + exponent
             if isinstance(value, six.string_types):
-                return '"{}"'.format(value)
-            else:
-                return str(value)
+                return quote(value)
+            for name, valid_type in getattr(param, "valid_types", {}).items():
+                if valid_type is value:
+                    return quote(name)
+            return str(value)
 
         def serialize_argument(argument, command):
             # type: (Argument, Command) -> str
 
-            if isinstance(argument, ListArgument):
-                return "[{}]".format(
-                    ", ".join(
-                        serialize_value(x, argument, command) for x in argument.value
-                    )
-                )
-            elif isinstance(argument.value, dict):
+            if isinstance(argument.value, dict):
                 return "[\n{}\n    ]".format(
                     ",\n".join(
-                        '        "{}": "{}"'.format(key, value)
+                        "        {}: {}".format(quote(six.text_type(key)), quote(six.text_type(value)))
                         for key, value in argument.value.items()
                     )
                 )
-            return serialize_value(argument.value, argument, command)
+            return serialize_value(argument.value, command.inputs.get(argument.name))
 
         def serialize_command(command):
             # type: (Command) -> str
